@@ -82,3 +82,30 @@ def run (args : Json) : Except String Json := do
   pure (Json.mkObj [("batch", show_ (batch tasks f order)), ("sequential", show_ (sequential tasks f))])
 
 end LK.Driver.C12
+
+namespace LK.Driver.C18
+open LK.Train
+
+/-- `c18.train_all`: nodes = [[index, trainable]…], seeded? → per trained component the spawn key of the seed it receives -/
+def run (args : Json) : Except String Json := do
+  let nodes ← (← getArr args "nodes").mapM (fun e => do
+    match (← e.getArr?).toList with
+    | [n, t] => pure (← n.getNat?, ← t.getBool?)
+    | _ => throw "bad node")
+  let seeded ← getBool args "seeded"
+  let log := trainAll nodes (if seeded then some { entropy := 0, key := [], spawned := 0 } else none)
+  pure (Json.arr (log.map (fun (n, s) => Json.mkObj [("node", Json.num (JsonNumber.fromNat n)),
+    ("spawn_key", match s with | some c => Json.arr (c.key.map (fun k => Json.num (JsonNumber.fromNat k))).toArray | none => Json.null)])).toArray)
+
+/-- `c18.guard`: a sequence of (dataset tag, retrain flag) steps on one component → the dataset tag its state comes from after each step -/
+def guard (args : Json) : Except String Json := do
+  let steps ← (← getArr args "steps").mapM (fun e => do
+    match (← e.getArr?).toList with
+    | [d, r] => pure (← d.getNat?, ← r.getBool?)
+    | _ => throw "bad step")
+  let (_, tr) := steps.foldl (fun (acc : Comp Nat × List Json) (dr : Nat × Bool) =>
+    let c := train (fun d => d) acc.1 dr.1 dr.2
+    (c, acc.2 ++ [match c.learned with | some d => Json.num (JsonNumber.fromNat d) | none => Json.null])) (({ learned := none } : Comp Nat), [])
+  pure (Json.arr tr.toArray)
+
+end LK.Driver.C18
